@@ -1,12 +1,20 @@
 //! Scenario registry: plan.scenario -> async run; property -> plan generator.
 use crate::plan::*;
 use crate::sim::Ctx;
-pub mod sctp;
+pub mod demux;
+pub mod dtls;
+pub mod latch;
+pub mod srtpgate;
 pub mod gen_sctp;
+pub mod sctp;
 
 pub async fn dispatch(ctx: &Ctx) {
     match ctx.plan.scenario.as_str() {
         "sctp_layer" => sctp::run(ctx).await,
+        "dtls_layer" => dtls::run(ctx).await,
+        "demux" => demux::run(ctx).await,
+        "latch" => latch::run(ctx).await,
+        "srtp_gate" => srtpgate::run(ctx).await,
         other => ctx.violate("HARNESS.scenario", format!("unknown scenario {other}")),
     }
 }
@@ -21,6 +29,10 @@ pub enum Tier {
 pub fn generate(prop: &str, seed: u64, idx: u64, tier: Tier) -> Option<Plan> {
     match prop {
         "C01" | "C12" | "C13" => Some(gen_sctp::generate(prop, seed, idx, tier)),
+        "C11" | "C02" | "C03" => Some(dtls::generate(prop, seed, idx, tier)),
+        "C19" => Some(demux::generate(prop, seed, idx, tier)),
+        "C18" => Some(latch::generate(prop, seed, idx, tier)),
+        "C14" => Some(srtpgate::generate(prop, seed, idx, tier)),
         _ => None,
     }
 }
@@ -28,6 +40,10 @@ pub fn generate(prop: &str, seed: u64, idx: u64, tier: Tier) -> Option<Plan> {
 /// Number of runs for a tier.
 pub fn budget(prop: &str, tier: Tier) -> u64 {
     match (prop, tier) {
+        ("C11" | "C02" | "C03", t) => dtls::budget(prop, t),
+        ("C19", t) => demux::budget(prop, t),
+        ("C18", t) => latch::budget(prop, t),
+        ("C14", t) => srtpgate::budget(prop, t),
         ("C01", Tier::Quick) => 3000,
         ("C01", Tier::Thorough) => 150_000,
         ("C12", Tier::Quick) => 2500,
